@@ -114,6 +114,8 @@ def build_world() -> World:
     s("_pending_send_cancels", SetSort(Ref("Flag")))
     s("_scheduled_sends", DictSort(STR, Callable_))
     s("_actors", DictSort(STR, Interp))
+    s("task_manager", OPAQUE)                 # asyncio engine: TaskManager (timers / services as asyncio tasks) - not modelled
+    s("_event_loop_task", OPAQUE)             # asyncio engine: the consumer task of the event queue
     s("_event_queue", ListSort(Ev))            # collections.deque, modelled as a list (append / popleft / clear)
     # ghost state of C04 (exists only in verification conditions):
     s("g_accepted", ListSort(Ev))              # every event accepted by send()/send_events() while running, in order
@@ -321,11 +323,15 @@ def build_world() -> World:
                     k = z3.Const("fk", hv.sort.key.z)
                     st.assume(z3.ForAll([k], z3.Implies(z3.Select(hv.t[2], k), z3.Select(hv.t[3], k) != fl.z)))
             return [(st, fl)]
+        if name == "inspect.isawaitable":
+            return [(st, fresh(BOOL, "isaw"))]
         if name == "inspect.iscoroutinefunction":
             return [(st, fresh(BOOL, "iscoro"))]       # a total, effect-free test of a python callable (outside the modelled value domain)
         if name == "threading.Thread":
             return [(st, fresh(OPAQUE, "thread"))]     # the thread BODY is a concurrent entry point, not executed here (A-seq)
-        if name in ("<Opaque>.start",):
+        if name in ("<Opaque>.start", "<Opaque>.cancel", "<Opaque>.cancel_all", "<Opaque>.done"):
+            # thread / asyncio task / TaskManager handles: opaque objects outside the modelled state; cancel_all() gathers its
+            # tasks with return_exceptions (task_manager.py), so awaiting it does not raise
             return [(st, fresh(OPAQUE, "none"))]
         if name == "<Flag>.set" and isinstance(recv, Val):
             arr = st.heap[("Flag", "is_set")]
